@@ -269,6 +269,82 @@ pub fn describe(prog: &Program) -> String {
     out.join(" ")
 }
 
+/// one token of a compact steering recipe: `NAME`, `NAME*k` or `(A B ...)*k`
+pub fn parse_token(t: &str) -> Option<(Vec<&'static str>, usize)> {
+    let (body, k) = match t.rsplit_once('*') {
+        Some((b, k)) => (b, k.parse::<usize>().ok()?),
+        None => (t, 1),
+    };
+    let body = body.trim().trim_start_matches('(').trim_end_matches(')');
+    let names: Option<Vec<&'static str>> = body.split_whitespace().map(|n| lexer::by_name(n).map(|i| i.name)).collect();
+    let names = names?;
+    if names.is_empty() {
+        return None;
+    }
+    Some((names, k))
+}
+
+/// number of opcodes a token list stands for
+pub fn token_ops(tokens: &[String]) -> usize {
+    tokens.iter().filter_map(|t| parse_token(t)).map(|(n, k)| n.len() * k).sum()
+}
+
+/// Steering of long periodic programs: every token's unit is steered twice on the real generator
+/// (the first repetition starts from the state the previous token left, the second from the state
+/// one repetition leaves) and the bytes of the second repetition are replicated for the rest; the
+/// resulting script is then verified in one run (the generator must emit exactly the intended
+/// opcode sequence), otherwise the recipe counts as not steerable.
+pub fn steer_tokens(p: u8, tokens: &[String]) -> Option<Vec<u8>> {
+    let mut script: Vec<u8> = if p >= 4 { vec![0] } else { vec![] };
+    let mut done: Vec<u8> = vec![];
+    let mut last_byte: HashMap<u8, u8> = HashMap::new();
+    let mut steer_unit = |script: &mut Vec<u8>, done: &mut Vec<u8>, names: &[&'static str]| -> Option<Vec<u8>> {
+        let start = script.len();
+        for name in names {
+            let want = lexer::by_name(name)?.code;
+            let depth = done.len() + 1;
+            let hint = last_byte.get(&want).copied();
+            let mut hit = None;
+            for b in hint.into_iter().chain(0..=255u8) {
+                let mut s2 = script.clone();
+                s2.push(b);
+                let (_sc, _recs, ops, consumed) = engine::tree_probe(p, &s2, depth);
+                if ops.len() == depth && ops[depth - 1] == want && ops[..depth - 1] == done[..] {
+                    if consumed > s2.len() {
+                        s2.resize(consumed, 0);
+                    }
+                    hit = Some(s2);
+                    last_byte.insert(want, b);
+                    break;
+                }
+            }
+            *script = hit?;
+            done.push(want);
+        }
+        Some(script[start..].to_vec())
+    };
+    for t in tokens {
+        let (names, k) = parse_token(t)?;
+        let codes: Vec<u8> = names.iter().filter_map(|n| lexer::by_name(n).map(|i| i.code)).collect();
+        let first = steer_unit(&mut script, &mut done, &names)?;
+        if k >= 2 {
+            let second = steer_unit(&mut script, &mut done, &names)?;
+            let _ = first;
+            for _ in 2..k {
+                script.extend_from_slice(&second);
+                done.extend_from_slice(&codes);
+            }
+        }
+    }
+    // verification run
+    let (_sc, _recs, ops, _consumed) = engine::tree_probe(p, &script, done.len());
+    if ops == done {
+        Some(script)
+    } else {
+        None
+    }
+}
+
 pub fn scenario_for(p: u8, prog: &Program, script: Vec<u8>) -> Scenario {
     let mut sc = Scenario::solo(engine::tree_config(p, prog.ops.len()), Entropy::Bytes(script));
     sc.faults.push(crate::desc::Fault {
